@@ -357,7 +357,7 @@ ret r
 spec:
         requires self.wf()
         ensures r.s() == self.start_spec(), r.e() == self.end_spec(), r.s() <= r.e()    // [C04]
-before `match self {`:
+enter:
         proof { if let TextData::Single { fragment } = self { assert(self.frags()[0] == *fragment); } }
 @*/
 }
@@ -1017,7 +1017,7 @@ spec:
         requires self.wf(), toks_ok(s@),
         ensures s@.len() > 0 ==> r.spec_bytes() == the_input().subrange(s@[0].span.s(), s@.last().span.e()),   // [C04]
             s@.len() == 0 ==> blen(r) == 0,
-before `debug_assert_adjacent!(s);`:
+enter:
         proof { reveal_strlit(""); }
 before `let start = s.first().unwrap().span.start();`:
         proof { lemma_mono(s@, 0, s@.len() - 1); }
@@ -1039,7 +1039,7 @@ spec:
                 t.frags().len() > 0 && t.start_spec() <= cs(#[trigger] tokens@[k]) && tokens@[k].span.e() <= t.end_spec(),      // [C05]
             // [C17] no byte of a comment token lies in any fragment
             cm_ok(t.frags(), tokens@, tokens@.len() as int),      // [C17]
-before `debug_assert_adjacent!(tokens);`:
+enter:
         broadcast use axiom_str_len_bound;
         proof { assert(blen(self.input) <= usize::MAX); }
 loop 0 it it:
@@ -1122,7 +1122,7 @@ spec:
         requires self.wf()
         ensures r == self.off(), gbnd(r as int),    // [C04]
             self.cur() < self.toks().len() ==> r == self.toks()[self.cur()].span.s(),
-before `self.parsed()`:
+enter:
         proof { lemma_off_mono(self.toks(), self.cur(), self.cur()); }
 closure @ `|t| t.span.end()` `&Token` ret `e: usize`:
         ensures e == t.span.e()
@@ -1146,7 +1146,7 @@ ret r
 spec:
         requires self.wf()
         ensures r@ == self.toks().subrange(self.cur(), self.toks().len() as int), toks_ok(r@)
-before `self.tokens.split_at(self.current).1`:
+enter:
         proof { lemma_sub_ok(self.toks(), self.cur(), self.toks().len() as int); }
 @*/
 /*@ fn src/parser/block_parser.rs BlockParser::consume_rest
@@ -1185,7 +1185,7 @@ spec:
         ensures final(self).wf(), final(self).same(old(self)), final(self).evs() == old(self).evs(),
             r.is_some() ==> old(self).cur() < old(self).toks().len() && r.unwrap() == old(self).toks()[old(self).cur()] && final(self).cur() == old(self).cur() + 1,
             r.is_none() ==> final(self).cur() == old(self).cur() && old(self).cur() >= old(self).toks().len(),
-before `if let Some(token) = self.tokens.get(self.current) {`:
+enter:
         proof { broadcast use axiom_slice_len_bound; assert(self.tokens@.len() <= usize::MAX); }
 @*/
 /*@ fn src/parser/block_parser.rs BlockParser::bump_any
@@ -1531,7 +1531,7 @@ spec:
         // [C17] only whitespace/comment tokens are trimmed, and the result does not start or end with one
         r@.len() > 0 ==> !is_ws_comment(r@[0].kind) && !is_ws_comment(r@.last().kind),
         r@.len() == 0 ==> forall|i: int| 0 <= i < s@.len() ==> is_ws_comment((#[trigger] s@[i]).kind),
-before `let from = match s.iter().position(not_ws_comment) {`:
+enter:
     proof { lemma_vals_as_ref(s@); lemma_sub_ok(s@, 0, 0); assert(s@.subrange(0, 0) =~= Seq::<Token>::empty()); }
 after `let to = s.iter().rposition(not_ws_comment).unwrap();`:
     proof { lemma_sub_ok(s@, from as int, to as int + 1); }
@@ -1602,7 +1602,7 @@ spec:
         r.sp().ok(),     // [C04]
 closure @ `|t| t.span.start()` `&Token` ret `e: usize`:
         ensures e == t.span.s()
-before `let start = tokens`:
+enter:
     proof {
         lemma_off_mono(bp.toks(), bp.cur() - tokens@.len(), bp.cur());
         if tokens@.len() > 0 { assert(tokens@[0] == bp.toks()[bp.cur() - tokens@.len()]); lemma_tok(tokens@, 0); }
@@ -2099,7 +2099,7 @@ closure 1 `&Token` ret `b: bool`:
         ensures b == (t.kind == TokenKind::Or)
 closure 2 `&Token` ret `b: bool`:
         ensures b == (t.kind == TokenKind::Or)
-before `if let Some(alias_sep) = bp`:
+enter:
     proof { lemma_vals_as_ref(tokens@); }
 after `let (name_tokens, alias_tokens) = tokens.split_at(alias_sep);`:
         proof { lemma_sub_ok(tokens@, 0, alias_sep as int); lemma_sub_ok(tokens@, alias_sep as int, tokens@.len() as int);
@@ -2384,7 +2384,7 @@ spec:
         //       paragraph and in a section whose name is blank (both drop blank texts: assumption on Text::is_text_empty)
         old(block).toks()[0].kind != TokenKind::TextStep && !(final(block).evs().last() is Section && final(block).evs().last()->name.is_none())
             ==> covered(final(block).toks(), final(block).toks().len() as int, final(block).evs(), old(block).evs().len() as int),     // [C05]
-before `let meta_or_section = match block.peek() {`:
+enter:
     let ghost pre = *block;
 ?closure @ `|bp| {` `&mut BlockParser<'_, '_>` ret `o: Option<Event<'_>>`:
         requires *old(bp) == pre, pre.wf(), pre.cur() == 0
